@@ -71,6 +71,8 @@ var svcs = []svcDef{
 			{"login-pwd", func(t string) [][]byte {
 				return lines("USER anonymous", "PASS anonymous", "PWD", "SIZE "+t, "CWD incoming", "PWD")
 			}},
+			// passive mode: the reply names the address the client reached the service on
+			{"login-pasv", func(t string) [][]byte { return lines("USER anonymous", "PASS anonymous", "PASV", "SIZE "+t, "PASV") }},
 			{"badlogin-gated", func(t string) [][]byte { return lines("USER "+t, "PASS "+t, "PWD", "FEAT") }},
 			// a TLS upgrade that fails (a handshake record that is not a ClientHello): the session goes on in plain text
 			{"authtls-fails", func(t string) [][]byte {
@@ -288,11 +290,18 @@ func plans(sv svcDef, tier string, seed int64) []runPlan {
 			ps = append(ps, runPlan{Kind: "history", Sess: []int{probe}, Hist: h})
 		}
 	}
+	// every one of the first three session templates, complete, directly before every probe template (the earlier
+	// session reaches the service on another of its addresses)
+	for t := 0; t < 3 && t < len(sv.Sess); t++ {
+		for probe := 0; probe < len(sv.Sess); probe++ {
+			ps = append(ps, runPlan{Kind: "history", Sess: []int{probe}, Hist: []int{t}})
+		}
+	}
 	// every way of abandoning a session, directly before every probe template and with one complete session between
 	for c := 3; c < 4+len(sv.Aborts); c++ {
 		for probe := 0; probe < len(sv.Sess); probe++ {
 			ps = append(ps, runPlan{Kind: "history", Sess: []int{probe}, Hist: []int{c}})
-			ps = append(ps, runPlan{Kind: "history", Sess: []int{probe}, Hist: []int{c, (probe + c) % len(sv.Sess)}})
+			ps = append(ps, runPlan{Kind: "history", Sess: []int{probe}, Hist: []int{c, (probe + c) % 3}})
 		}
 	}
 	// clients that share a host: distinct addresses that differ in the port only (NAT, two processes on one
@@ -342,6 +351,8 @@ type runObs struct {
 
 var (
 	reDigest = regexp.MustCompile(`queued as \+[0-9a-f]+`)
+	// the port of a passive-mode reply is the listener's choice; the address is the one the client connected to
+	rePasvPort = regexp.MustCompile(`\((\d+,\d+,\d+,\d+),\d+,\d+\)`)
 )
 
 // berSplit splits concatenated BER elements (definite lengths) into (header, content) pairs.
@@ -423,6 +434,7 @@ func canonText(b []byte, toks map[string]string) string {
 	}
 	s := string(b)
 	s = reDigest.ReplaceAllString(s, "queued as +<DIGEST>")
+	s = rePasvPort.ReplaceAllString(s, "($1,<P1>,<P2>)")
 	for tok, name := range toks {
 		s = strings.ReplaceAll(s, tok, name)
 		s = strings.ReplaceAll(s, hex.EncodeToString([]byte(tok)), "<HEX"+name+">")
@@ -507,14 +519,22 @@ var stuckCount int
 
 var addrSeq int
 
-func newLive(srv *lab.Server, sv svcDef, tmpl int, tok string, steps [][]byte, host string) *live {
+// earlierDst: the address earlier sessions of a history reach the service on (a sensor that answers on several
+// addresses); probe and solo sessions use 10.0.0.1
+const earlierDst = "10.0.0.2"
+
+func newLive(srv *lab.Server, sv svcDef, tmpl int, tok string, steps [][]byte, host string, dst ...string) *live {
 	addrSeq++
 	l := &live{tmpl: tmpl, tok: tok, ip: fmt.Sprintf("198.51.%d.%d", 100+(addrSeq>>8)&127, addrSeq&255), port: 30000 + addrSeq%30000, steps: steps}
 	if host != "" {
 		l.ip = host
 	}
 	if sv.Net == "tcp" {
-		l.cc = srv.L.DialTCP(lab.TCPAddr("10.0.0.1", sv.Port), lab.TCPAddr(l.ip, l.port))
+		to := "10.0.0.1"
+		if len(dst) > 0 {
+			to = dst[0]
+		}
+		l.cc = srv.L.DialTCP(lab.TCPAddr(to, sv.Port), lab.TCPAddr(l.ip, l.port))
 		l.cl = lab.NewClient(l.cc)
 		l.cl.WaitIdle(300 * time.Millisecond) // banner
 	}
@@ -607,9 +627,9 @@ func (prop) Child(b core.Batch, o *core.Obs) {
 			continue
 		}
 		o.Begin(k)
-		if pl.Kind == "solo" || (k > 0 && ps[k-1].Kind == "solo") {
-			// every solo reference runs on a service instance of its own, and the
-			// remaining runs share one more fresh instance
+		if pl.Kind == "solo" || pl.Kind == "history" || (k > 0 && (ps[k-1].Kind == "solo" || ps[k-1].Kind == "history")) {
+			// every solo reference and every history (its earlier sessions are then the first the instance ever
+			// served) runs on a service instance of its own, and the remaining runs share one more fresh instance
 			if s2, err := fresh(); err == nil {
 				srv.Stop()
 				srv = s2
@@ -639,7 +659,12 @@ func (prop) Child(b core.Batch, o *core.Obs) {
 				} else {
 					steps = sv.Sess[h%len(sv.Sess)].Steps(tok)
 				}
-				hl := newLive(srv, sv, -1, tok, steps, "")
+				var hl *live
+				if j%2 == 0 {
+					hl = newLive(srv, sv, -1, tok, steps, "", earlierDst)
+				} else {
+					hl = newLive(srv, sv, -1, tok, steps, "")
+				}
 				for range steps {
 					hl.step(srv, sv)
 				}
